@@ -536,6 +536,11 @@ func (e *Env) structField(sv ssa.Value, idx int, depth int) (ssa.Value, *Env) {
 		if sc == nil || len(sc.Blocks) == 0 || sc.Pkg == nil || !strings.HasPrefix(sc.Pkg.Pkg.Path(), modPath) || e.depth >= maxDepth {
 			return nil, nil
 		}
+		// only unexported builders of parameter objects: the result of an exported decoder keeps its own name (rules speak of
+		// "the Frozen field of what ESDTUserMetadataFromBytes returned")
+		if isExportedAPI(sc) {
+			return nil, nil
+		}
 		rets := returnsOf(sc)
 		if len(rets) != 1 || len(rets[0].Results) != 1 {
 			return nil, nil
@@ -576,6 +581,10 @@ func (e *Env) structField(sv ssa.Value, idx int, depth int) (ssa.Value, *Env) {
 					if r.Field == idx {
 						n++
 						val = st.Val
+						// the store must be part of building the literal: it is executed on every path to the load
+						if !(st.Block() == x.Block() && indexIn(st) < indexIn(x)) && !(st.Block() != x.Block() && st.Block().Dominates(x.Block())) {
+							return nil, nil
+						}
 					}
 				}
 			case *ssa.UnOp, *ssa.DebugRef:
